@@ -2,6 +2,7 @@ package verifharness
 
 import (
 	"context"
+	"errors"
 	"fmt"
 	"log/slog"
 	"strings"
@@ -23,14 +24,15 @@ type LogRec struct {
 // Recorder captures everything f1 writes: structured records (slog handler) and printed lines
 // (ui.Printer writers). It may also make output slow (a blocked terminal / pipe).
 type Recorder struct {
-	mu      sync.Mutex
-	sim     *simrt.Sim
-	Logs    []LogRec
-	Out     []PrintRec // printer stdout
-	Err     []PrintRec // printer stderr
-	SlowNs  int64
-	SlowAll bool
-	markSeq uint64 // scheduler step of Do's return: progress after it is late
+	mu       sync.Mutex
+	sim      *simrt.Sim
+	Logs     []LogRec
+	Out      []PrintRec // printer stdout
+	Err      []PrintRec // printer stderr
+	SlowNs   int64
+	SlowAll  bool
+	FailAtNs int64  // > 0: from this simulated instant on, writes to the terminal's stdout fail (EIO: the terminal went away)
+	markSeq  uint64 // scheduler step of Do's return: progress after it is late
 }
 
 type PrintRec struct {
@@ -110,6 +112,8 @@ type recWriter struct {
 	err bool
 }
 
+var errTerminalGone = errors.New("write /dev/stdout: input/output error")
+
 func (w recWriter) Write(p []byte) (int, error) {
 	head := string(p)
 	w.r.slow(strings.Contains(head, "✔") && strings.Contains(head, "✘") && strings.HasPrefix(strings.TrimSpace(head), "["))
@@ -118,6 +122,10 @@ func (w recWriter) Write(p []byte) (int, error) {
 	pr := PrintRec{Seq: w.r.sim.Step(), T: w.r.sim.Now(), Text: s}
 	if s != head {
 		pr.Was = head
+	}
+	if !w.err && w.r.FailAtNs > 0 && w.r.sim.Now() >= w.r.FailAtNs {
+		w.r.mu.Unlock()
+		return 0, errTerminalGone
 	}
 	if w.err {
 		w.r.Err = append(w.r.Err, pr)
